@@ -57,6 +57,31 @@ def gen_grad(rng, method, nd, variant):
             'cmp': 'exact' if exact else 'tol'}
 
 
+SCENARIOS = ['interp-then-gradient', 'fresh-gradient', 'nearby', 'mutate', 'sequence']
+
+
+def gen_gradapi(rng, method, nd, variant, scenario):
+    """Call sequences on one InterpND object ending in the public gradient() API."""
+    grids, exact = grids_for(rng, method, nd)
+    table = rand_table(rng, grids)
+    A = [interior(rng, g) for g in grids]
+    C = [interior(rng, g) for g in grids]
+    B = [a + abs(a) / 2 ** 18 for a in A]            # within numpy.allclose's default tolerance of A
+    if B == A:
+        B = [a + Fr(1, 2 ** 20) for a in A]
+    jp = lambda p: [pj(v) for v in p]
+    ops = {'interp-then-gradient': [['interp', jp(A), False], ['grad', jp(A)]],
+           'fresh-gradient': [['grad', jp(A)]],
+           'nearby': [['interp', jp(A), True], ['grad', jp(B)]],
+           'mutate': [['mutgrad', jp(A), jp(C)]],
+           'sequence': [['interp', jp(A), True], ['grad', jp(C)], ['grad', jp(A)], ['interp', jp(C), False],
+                        ['grad', jp(C)]]}[scenario]
+    hs = [min(b - a for a, b in zip(g, g[1:])) / 64 for g in grids]
+    return {'kind': 'gradapi', 'method': method, 'variant': variant, 'scenario': scenario,
+            'grids': [[pj(v) for v in g] for g in grids], 'table': g15.to_json(table), 'ops': ops,
+            'h': [pj(h) for h in hs], 'cmp': 'exact' if exact and scenario != 'nearby' else 'tol'}
+
+
 def gen_train(rng, method, nd, via):
     grids, exact = grids_for(rng, method, nd)
     v, w = rand_table(rng, grids), rand_table(rng, grids)
@@ -85,6 +110,9 @@ def gen_spline(rng, method, via):
         c['x_cp'] = [pj(x) for x in g]
         m = rng.randrange(1, 8)
         c['x_interp'] = [pj(x) for x in sorted(interior(rng, g) for _ in range(m))]
+    if via == 'comp':
+        # further splines (different control points) on the same SplineComp
+        c['extra'] = [[pj(Fr(rng.randrange(-640, 641), 64)) for _ in range(n)] for _ in range(rng.choice([1, 2]))]
     return c
 
 
@@ -97,16 +125,24 @@ class C16(Spec):
             'cells (odd eighths), all five methods, general and fixed variants, compared with a 5-point difference '
             'of the returned values, also as histories (same object queried outside the table first, then one call per point); value gradients: training_gradients / MetaModelStructuredComp(training_data_'
             'gradients) for slinear, lagrange2, lagrange3, cubic with tables v, w, a*v+w; evaluate_spline and '
-            'SplineComp for slinear, lagrange2, lagrange3, cubic, akima, bsplines; every case distinct')
+            'SplineComp (2-3 splines with different control points on one component) for slinear, lagrange2, lagrange3, '
+            'cubic, akima, bsplines; the public gradient() API in call sequences on one object (interpolate then gradient, '
+            'fresh gradient, gradient at a point within 4e-6 relative of the cached one, in-place mutation of the query '
+            'array, mixed sequences); every case distinct')
 
     def gen(self, tier, rng):
         cases = []
-        n1, n2, n3 = (700, 700, 260) if tier == 'quick' else (7000, 7000, 2600)
+        n1, n2, n3 = (600, 600, 260) if tier == 'quick' else (6000, 6000, 2600)
         for k in range(n1):
             method = METHODS[k % len(METHODS)]
             nd = rng.choice([1, 1, 2, 2, 3])
             variant = 'fixed' if (method, nd) in g15.FIXED and rng.random() < 0.3 else 'general'
             cases.append(gen_grad(rng, method, nd, variant))
+        for k in range(260 if tier == 'quick' else 2600):
+            method = METHODS[k % len(METHODS)]
+            nd = rng.choice([1, 2, 2, 3])
+            variant = 'fixed' if (method, nd) in g15.FIXED and rng.random() < 0.3 else 'general'
+            cases.append(gen_gradapi(rng, method, nd, variant, SCENARIOS[(k // len(METHODS)) % len(SCENARIOS)]))
         for k in range(n2):
             method = LINEAR[k % len(LINEAR)]
             nd = rng.choice([1, 1, 2, 2, 3])
@@ -124,6 +160,10 @@ class C16(Spec):
         if c['kind'] == 'grad':
             return '(run_grad %s %s %s [%s])' % (COQ_M[c['method']], gs, g15.tensor_term(c['table']),
                                                 '; '.join(g15.qlist_term(p) for p in c['pts']))
+        if c['kind'] == 'gradapi':
+            pts = [op[1] if op[0] == 'grad' else op[2] for op in c['ops'] if op[0] != 'interp']
+            return '(VL (map (fun l => vqs (List.tl l)) (grad_points %s %s %s (map (fun _ => 0%%Z) %s) [%s])))' % (
+                COQ_M[c['method']], gs, g15.tensor_term(c['table']), gs, '; '.join(g15.qlist_term(p) for p in pts))
         return '(run_train %s %s %s)' % (COQ_M[c['method']], gs, g15.qlist_term(c['pt']))
 
     def shrink(self, c):
